@@ -473,6 +473,7 @@ class Executor:
         self.global_snapshot = None
         self.called = set()
         self.llvm = None
+        self.sched = None
         from . import gostubs
         gostubs.install(self)
 
@@ -596,14 +597,16 @@ class Executor:
                 raise Unsupported('%s outside [%d,%d]' % (what, lo, hi))
             self.add(v == z3.BitVecVal(e[1], w))
             return e[1]
-        if hi - lo > 70000:
-            raise Unsupported('concretize range too large for ' + what)
+        cap = min(hi - lo + 1, 600)
         inr = z3.And(z3.UGE(v, z3.BitVecVal(lo, w)), z3.ULE(v, z3.BitVecVal(hi, w)))
         found = []
         # try the cached model first
         self.solver.push()
         self.solver.add(inr)
-        while len(found) <= hi - lo + 1:
+        while True:
+            if len(found) > cap:
+                self.solver.pop()
+                raise Unsupported('more than %d feasible values for %s' % (cap, what))
             r = self.check()
             if r != z3.sat:
                 if r == z3.unknown:
@@ -685,6 +688,8 @@ class Executor:
             es = self.prog.size(t['elem'])
             return Agg(self._load(obj, off + i * es, t['elem']) for i in range(t['len']))
         n = t['size']
+        if self.sched is not None:
+            self.shared_access(obj, off, n, False)
         v = self.mem.read(obj, off, n)
         if v is None:
             return self.zero_leaf(tid)
@@ -722,6 +727,8 @@ class Executor:
             for i, ev in enumerate(v):
                 self._store(obj, off + i * es, t['elem'], ev)
             return
+        if self.sched is not None:
+            self.shared_access(obj, off, t['size'], True)
         self.mem.write(obj, off, t['size'], v)
 
     def new(self, tid, label='', heap=True):
@@ -1056,6 +1063,7 @@ class Executor:
             x = V(ins['x'])
             if isinstance(x, Str):
                 raise Unsupported('range over string')
+            self.shared_map_access(x, False)
             L[ins['n']] = MapIter(list(x.entries) if x is not None else [])
             return
         if op == 'Next':
@@ -1362,7 +1370,18 @@ class Executor:
             return b is None
         raise Unsupported('map key %r' % (a,))
 
+    def shared_access(self, obj, off, n, write):
+        for (oid, lo, hi) in self.pstate.get('tracked', ()):
+            if obj.id == oid and off < hi and off + n > lo:
+                self.sched.access('%s+%d' % (obj.label, off), write)
+                return
+
+    def shared_map_access(self, m, write):
+        if self.sched is not None and m is not None and id(m) in self.pstate.get('tracked_maps', ()):
+            self.sched.access('shared map', write)
+
     def map_find(self, m, k):
+        self.shared_map_access(m, False)
         for e in m.entries:
             if self.decide(self.key_eq(e[0], k)):
                 return e
@@ -1371,6 +1390,7 @@ class Executor:
     def map_update(self, m, k, v, ins):
         if m is None:
             raise GoPanic('nil-map', 'assignment to entry in nil map', ins.get('pos', ''))
+        self.shared_map_access(m, True)
         e = self.map_find(m, k)
         if e is not None:
             e[1] = v
@@ -1448,7 +1468,9 @@ class Executor:
             x = args[0]
             if isinstance(x, Slice): return x.len
             if isinstance(x, Str): return len(x.b)
-            if isinstance(x, MapObj): return len(x.entries)
+            if isinstance(x, MapObj):
+                self.shared_map_access(x, False)
+                return len(x.entries)
             if x is None: return 0
             if isinstance(x, Agg): return len(x)
             raise Unsupported('len of %r' % (x,))
